@@ -440,7 +440,8 @@ pub fn tagged(tag: u32, objective: Option<f64>) -> mahf::Individual<TagP> {
 }
 
 /// Uniform access to instrumentation and the pure objective for generic monitors.
-pub trait Instrumented: Problem<Objective = SingleObjective> + ObjectiveFunction + Sync {
+/// (`Clone` because `Configuration<P>: Clone` is derived and therefore demands `P: Clone`.)
+pub trait Instrumented: Problem<Objective = SingleObjective> + ObjectiveFunction + Sync + Clone {
     fn instr(&self) -> &Instr;
     fn pure(&self, solution: &Self::Encoding) -> f64;
     fn sol_hash(solution: &Self::Encoding) -> u64;
@@ -501,5 +502,26 @@ impl Instrumented for Tsp {
     }
     fn sol_json(s: &Vec<usize>) -> serde_json::Value {
         serde_json::json!(s)
+    }
+}
+
+impl Clone for Real {
+    fn clone(&self) -> Self {
+        Self { domains: self.domains.clone(), f: self.f, instr: Instr::new() }
+    }
+}
+impl Clone for Bits {
+    fn clone(&self) -> Self {
+        Self { dim: self.dim, f: self.f, instr: Instr::new() }
+    }
+}
+impl Clone for Perm {
+    fn clone(&self) -> Self {
+        Self { dim: self.dim, instr: Instr::new() }
+    }
+}
+impl Clone for Tsp {
+    fn clone(&self) -> Self {
+        Self { n: self.n, dist: self.dist.clone(), kind: self.kind, instr: Instr::new() }
     }
 }
